@@ -45,6 +45,15 @@ Theorem C12_script_inert :
 Proof. exact script_inert. Qed.
 Print Assumptions C12_script_inert.
 
+(** consume_buffers (the exit used by custom hydration contexts): for every order in which the
+    futures complete, each registered id comes out paired with the data registered under it *)
+Theorem C12_consume_pairs :
+  forall fuel order s l rest,
+  log (consume_loop fuel order s) = Lst [Num 14%Z; Lst l] :: rest ->
+  l = map pair_entry (abuf s).
+Proof. exact consume_pairs. Qed.
+Print Assumptions C12_consume_pairs.
+
 (** the ids the server hands to code the browser re-runs are, in order, exactly the ids the
     browser's counter hands out — for any nesting of hydrated / non-hydrated regions and any
     interleaving with everything else a session does (non-islands applications never switch
